@@ -17,6 +17,11 @@ def run(ctx):
     S.shared_state(ctx, None, 'R3.5')
     sc = S.SimCtx(ctx.prog)
     S.r31_horizon(ctx, sc)
+    # the horizon is decided from peek_first(): it is the earliest pending event only while the backing list is a heap (shared rule with C01)
+    from . import c01
+    ctx.uses('eventlist')
+    for cname_ in ctx.prog.subclasses('EventListInterface'):
+        c01.check_eventlist(ctx, cname_)
     S.r32_ending(ctx, sc)
     S.r33_pop_horizon(ctx, sc)
     S.r34_bound_clamped(ctx, sc)
